@@ -1125,7 +1125,26 @@ func (x *Exec) step(sc *Scenario, in Input) {
 			// the session that joined this realm while the other one was being removed:
 			// welcomed at once (its WELCOME carries the time), then the clock moves on
 			ev.In = *in.With
-			ev.Out, ev.Bind = outs[rc.idx], binds[rc.idx]
+			// (what arrived later than the instant of the join - a RESULT whose retry became
+			// due while the other realm's removal took time - belongs to the passing of time)
+			var later []SessOut
+			for _, so := range outs[rc.idx] {
+				now, aft := SessOut{S: so.S}, SessOut{S: so.S}
+				for _, m := range so.M {
+					if m.T > t0 {
+						aft.M = append(aft.M, m)
+					} else {
+						now.M = append(now.M, m)
+					}
+				}
+				if len(now.M) > 0 {
+					ev.Out = append(ev.Out, now)
+				}
+				if len(aft.M) > 0 {
+					later = append(later, aft)
+				}
+			}
+			ev.Bind = binds[rc.idx]
 			for _, so := range ev.Out {
 				for _, m := range so.M {
 					if m.K == "WELCOME" && so.S == in.With.S {
@@ -1137,12 +1156,14 @@ func (x *Exec) step(sc *Scenario, in Input) {
 			ev.BadIDs = rc.badIDs
 			x.emit(ev)
 			if d := x.nowMs() - t0; d > 0 {
-				x.emit(Event{Ev: "step", Scn: rc.scn, In: Input{Op: "advance", R: rc.idx, Ms: d}, Now: x.nowMs(), BadIDs: rc.badIDs})
+				x.emit(Event{Ev: "step", Scn: rc.scn, In: Input{Op: "advance", R: rc.idx, Ms: d}, Out: later, Now: x.nowMs(), BadIDs: rc.badIDs})
 			}
 			continue
-		case rc.idx != in.R && in.Op == "rmrealm" && x.nowMs() > t0 && len(outs[rc.idx]) == 0:
-			// the removal took (virtual) time: the other realms' clocks move on as well
-			x.emit(Event{Ev: "step", Scn: rc.scn, In: Input{Op: "advance", R: rc.idx, Ms: x.nowMs() - t0}, Now: x.nowMs(), BadIDs: rc.badIDs})
+		case rc.idx != in.R && in.Op == "rmrealm" && x.nowMs() > t0:
+			// the removal took (virtual) time: the other realms' clocks move on as well, and what
+			// arrived there meanwhile must be what the passing of that time explains
+			x.emit(Event{Ev: "step", Scn: rc.scn, In: Input{Op: "advance", R: rc.idx, Ms: x.nowMs() - t0}, Out: outs[rc.idx], Bind: binds[rc.idx],
+				Now: x.nowMs(), BadIDs: rc.badIDs})
 			continue
 		case rc.idx != in.R:
 			if len(outs[rc.idx]) == 0 {
@@ -1997,6 +2018,44 @@ func poisonMsg(m wamp.Message) {
 		poisonParts(m.Details, m.Arguments, m.ArgumentsKw)
 	case *wamp.Invocation:
 		poisonParts(m.Details, m.Arguments, m.ArgumentsKw)
+	case *wamp.Result:
+		// (what a meta procedure answered must be the caller's own copy)
+		poisonDeep(m.Arguments)
+		poisonDeep(m.ArgumentsKw)
+	case *wamp.Welcome:
+		poisonDeep(m.Details)
+	}
+}
+
+// poisonDeep scribbles over every container reachable from v.
+func poisonDeep(v any) {
+	switch v := v.(type) {
+	case wamp.Dict:
+		if v == nil {
+			return
+		}
+		for k, e := range v {
+			switch e.(type) {
+			case wamp.Dict, wamp.List, map[string]any, []any:
+				poisonDeep(e)
+			default:
+				v[k] = "POISON"
+			}
+		}
+		v["poison"] = "POISON"
+	case map[string]any:
+		poisonDeep(wamp.Dict(v))
+	case wamp.List:
+		for i, e := range v {
+			switch e.(type) {
+			case wamp.Dict, wamp.List, map[string]any, []any:
+				poisonDeep(e)
+			default:
+				v[i] = "POISON"
+			}
+		}
+	case []any:
+		poisonDeep(wamp.List(v))
 	}
 }
 
